@@ -164,19 +164,51 @@ pub fn longest_digit_run(s: &str) -> usize {
     best
 }
 
-/// cap every ASCII digit run of `s` at `max` digits (drops the excess digits)
-pub fn cap_digit_runs(s: &str, max: usize) -> String {
-    let mut out = String::with_capacity(s.len());
-    let mut cur = 0;
-    for c in s.chars() {
-        if c.is_ascii_digit() {
-            cur += 1;
-            if cur <= max {
-                out.push(c);
+/// every number of `s` is inside the domain of exact comparison: at most 18 digits, or 19 digits
+/// and not above i64::MAX (larger values saturate and are outside the domain of C01)
+pub fn numbers_in_domain(s: &str) -> bool {
+    let cs: Vec<char> = s.chars().collect();
+    let mut i = 0;
+    while i < cs.len() {
+        if cs[i].is_ascii_digit() {
+            let mut j = i;
+            while j < cs.len() && cs[j].is_ascii_digit() {
+                j += 1;
             }
+            let run: String = cs[i..j].iter().collect();
+            if run.len() > 19 || (run.len() == 19 && run.as_str() > "9223372036854775807") {
+                return false;
+            }
+            i = j;
         } else {
-            cur = 0;
-            out.push(c);
+            i += 1;
+        }
+    }
+    true
+}
+
+/// cap every ASCII digit run of `s` at `max` digits (drops the excess digits); with `max` = 18 a
+/// run of exactly 19 digits that is not above i64::MAX is kept (see `numbers_in_domain`)
+pub fn cap_digit_runs(s: &str, max: usize) -> String {
+    let cs: Vec<char> = s.chars().collect();
+    let mut out = String::with_capacity(s.len());
+    let mut i = 0;
+    while i < cs.len() {
+        if cs[i].is_ascii_digit() {
+            let mut j = i;
+            while j < cs.len() && cs[j].is_ascii_digit() {
+                j += 1;
+            }
+            let run: String = cs[i..j].iter().collect();
+            if run.len() <= max || (max == 18 && run.len() == 19 && run.as_str() <= "9223372036854775807") {
+                out.push_str(&run);
+            } else {
+                out.push_str(&run[..max]);
+            }
+            i = j;
+        } else {
+            out.push(cs[i]);
+            i += 1;
         }
     }
     out
